@@ -289,14 +289,15 @@ def run(ctx):
         g = facts.fn(CORE + "::sink_matched")
         bc = g.calls_to(CORE + "::sink_break_context")
         sm = g.calls_to(SINK + "::matched")
-        if bc and sm and C.dominates(g, bc[0].bb, sm[0].bb):
+        from ..flow import always_after
+        if bc and sm and always_after(g, [c.bb for c in bc], [c.bb for c in sm]):
             r.ok("sink_matched", "sink_break_context before Sink::matched", fn=g)
         else:
             r.bad("sink_matched", "a match is delivered without first deciding on the group separator", fn=g)
         h = facts.fn(CORE + "::before_context_by_line")
         bc = h.calls_to(CORE + "::sink_break_context")
         sb = h.calls_to(CORE + "::sink_before_context")
-        if bc and sb and C.dominates(h, bc[0].bb, sb[0].bb):
+        if bc and sb and always_after(h, [c.bb for c in bc], [c.bb for c in sb]):
             r.ok("before_context", "sink_break_context before each sink_before_context", fn=h)
         else:
             r.bad("before_context", "before-context lines are delivered without the separator decision", fn=h)
